@@ -316,3 +316,33 @@ fn prometheus_to_io_error(e: prometheus::Error) -> io::Error {
         e => io::Error::new(ErrorKind::Other, e.to_string()),
     }
 }
+
+#[cfg(feature = "verif")]
+pub(crate) mod verif_hooks {
+    use super::*;
+
+    pub struct Snapshot {
+        /// (HTTP1, HTTP2, HTTP3)
+        pub client_sessions: [i64; 3],
+        pub inbound_bytes: [u64; 3],
+        pub outbound_bytes: [u64; 3],
+        pub outbound_tcp_sockets: i64,
+        pub outbound_udp_sockets: i64,
+    }
+
+    pub fn snapshot(m: &Metrics) -> Snapshot {
+        let p = [Protocol::Http1, Protocol::Http2, Protocol::Http3];
+        Snapshot {
+            client_sessions: p.map(|x| m.client_sessions.with_label_values(&[x.as_str()]).get()),
+            inbound_bytes: p.map(|x| m.inbound_traffic.with_label_values(&[x.as_str()]).get()),
+            outbound_bytes: p.map(|x| m.outbound_traffic.with_label_values(&[x.as_str()]).get()),
+            outbound_tcp_sockets: m.outbound_tcp_sockets.get(),
+            outbound_udp_sockets: m.outbound_udp_sockets.get(),
+        }
+    }
+
+    /// what `GET /metrics` would return
+    pub fn collect(m: &Metrics) -> String {
+        String::from_utf8_lossy(&m.collect().1).to_string()
+    }
+}
